@@ -156,3 +156,154 @@ def einsum_fixed(ctx):
 def einsum_generated(ctx):
     n = 60 if ctx.tier == "quick" else 600
     _run(ctx, generated(n, 1000 + ctx.seed), "generated")
+
+
+# ---------------------------------------------------------------------------------------------
+# einsum against the WEAKEST contract of its callee ordered_indices: "returns some number for every index".
+# ordered_indices iterates over Python sets, so the numbers it returns (and whether two indices get the SAME number) depend on
+# PYTHONHASHSEED; the proof of einsum must not depend on them.  The callee is replaced in the shadow module by every weak ordering
+# (ties included) of the expression's indices; einsum must return the reference contraction for each.
+# (Found by the thorough tier: '...a,...bca,...acb,...acb->...c' gives a = b = 1.01 and a silently wrong result, fix: einsum tie-break commit, see known_findings.json.)
+# ---------------------------------------------------------------------------------------------
+ORDER_FAMILY = [
+    ("za,zbca,zacb,zacb->zc", [(2, 2), (2, 3, 2, 2), (2, 2, 2, 3), (2, 2, 2, 3)]),
+    ("ab,bc->ac", [(2, 3), (3, 2)]),
+    ("iab,ibc->iac", [(2, 2, 3), (2, 3, 2)]),
+    ("ab,ba->", [(2, 3), (3, 2)]),
+    ("abc,cba->b", [(2, 3, 2), (2, 3, 2)]),
+    ("ia,iab,ibc,ic->i", [(2, 2), (2, 2, 3), (2, 3, 2), (2, 2)]),
+    ("iab,jb->ija", [(2, 2, 3), (2, 3)]),
+    ("abc,bcd,cda->d", [(2, 3, 2), (3, 2, 2), (2, 2, 2)]),
+    ("...ab,...bcd,...ce->...ade", [(2, 1, 2), (2, 2, 2, 2), (2, 2, 3)]),
+]
+
+
+def _weak_orders(final, summed, rng, cap):
+    """callee contract of ordered_indices: output indices -> their position in the output; every other index -> SOME number.
+    All maps summed index -> {-1, 0, .., n-1} (may tie with each other and with output positions) when there are at most `cap`, else
+    `cap` seeded ones with ties and fractional values."""
+    base = {c: i for i, c in enumerate(final)}
+    n = len(final) + len(summed)
+    vals = list(range(-1, n))
+    if len(vals) ** len(summed) <= cap:
+        for ranks in itertools.product(vals, repeat=len(summed)):
+            yield dict(base, **dict(zip(summed, ranks)))
+    else:
+        for _ in range(cap):
+            k = rng.randint(1, n)
+            yield dict(base, **{c: rng.randrange(-1, k) + rng.choice([0, 0, 0.01, 0.5]) for c in summed})
+
+
+@group(["C05"], "einsum.einsum/any_index_order", ["einsum:einsum", "einsum:tensor_einsum_reduce_sum", "einsum:remove_size1", "einsum:replace_ellipsis"],
+       env="shim", kind="P", plain=True,
+       bound="9 expressions (2-4 operands, dims 1..3) + 12 (thorough 60) generated ones; callee ordered_indices replaced by EVERY weak ordering of the "
+             "summed indices (all maps into {-1..n-1}) when there are <= 120 (thorough 600), otherwise that many seeded maps with ties and fractions",
+       assumes=["callee contract used for opt_einsum.contract_path: it returns a valid contraction path (half of the evaluations use a seeded arbitrary valid "
+                "path, half the path opt_einsum returns)", "A-OPS: shim models of tf.transpose/reshape/reduce_sum/einsum",
+                "callee contract used for ordered_indices (checked on the real function in the same group): output indices -> their output position, every "
+                "other index -> a number (nothing else: not that the numbers are distinct, nor that they are independent of PYTHONHASHSEED)"])
+def einsum_any_order(ctx):
+    from vt.core import shim_tf, tower
+    import warnings
+
+    einsum = ctx.mod("einsum")
+    rng = random.Random(77 + ctx.seed)
+    family = list(ORDER_FAMILY) + generated(12 if ctx.tier == "quick" else 60, 2000 + ctx.seed)
+    cap = 120 if ctx.tier == "quick" else 600
+    real_oi = einsum.ordered_indices
+    real_cp = einsum.contract_path
+    n_ok = n_declined = n_contract = 0
+    bad = bad_contract = None
+    try:
+        for expr, shapes in family:
+            ops = [shim_tf.sym_tensor("t%d" % i, s) for i, s in enumerate(shapes)]
+            want = reference_contraction(_explicit(expr, shapes), [o.a for o in ops])
+            seen = {}
+
+            def spy(e2, sh, _seen=seen):
+                _seen["final"] = e2.split("->")[1]
+                _seen["summed"] = sorted(set(e2) - set(",->") - set(_seen["final"]))
+                try:
+                    _seen["real"] = real_oi(e2, sh)
+                except Exception as ex:  # e.g. RecursionError: the routine declines
+                    _seen["real"] = ex
+                raise _Probe()
+
+            einsum.ordered_indices = spy
+            try:
+                einsum.einsum(expr, *ops)
+            except _Probe:
+                pass
+            except Exception:
+                n_declined += 1
+                continue
+            final, summed = seen["final"], seen["summed"]
+            real = seen["real"]
+            if isinstance(real, dict):
+                # the callee contract itself, on the real ordered_indices
+                n_contract += 1
+                good = all(real.get(c) == i for i, c in enumerate(final)) and all(isinstance(real.get(c), (int, float)) for c in summed)
+                if not good and bad_contract is None:
+                    bad_contract = {"expr": expr, "ordered_indices": {k: v for k, v in real.items()}}
+            for k_ord, order in enumerate(_weak_orders(final, summed, rng, cap)):
+                einsum.ordered_indices = lambda e2, sh, _o=order: dict(_o)
+                # callee contract of opt_einsum.contract_path: SOME valid path (positions in the shrinking operand list, result appended);
+                # every second evaluation uses a seeded arbitrary valid path instead of opt_einsum's
+                if k_ord % 2:
+                    path = _random_path(len(shapes), rng)
+                    einsum.contract_path = lambda *a, _p=path, **kw: (_p, None)
+                else:
+                    einsum.contract_path = real_cp
+                try:
+                    with warnings.catch_warnings():
+                        warnings.simplefilter("ignore")
+                        got = einsum.einsum(expr, *ops)
+                except Exception as ex:
+                    n_declined += 1
+                    ctx.count(key=("declined", expr, tuple(sorted(order.items()))), sample={"expr": expr, "declined": repr(ex)[:80]})
+                    continue
+                ga = got.a
+                ok = ga.shape == want.shape
+                if ok:
+                    for g, w in zip(ga.reshape(-1), want.reshape(-1)):
+                        d = tm.add(tm._l(g), tm.neg(w))
+                        if d.op == "c" and d.args[0] == 0:
+                            continue
+                        st, info = tower.is_zero(d, 20)
+                        if st != "zero":
+                            ok = False
+                            break
+                ctx.count(key=(expr, tuple(sorted(order.items()))), sample={"expr": expr, "shapes": shapes, "order": order})
+                if ok:
+                    n_ok += 1
+                elif bad is None:
+                    bad = {"expr": expr, "shapes": shapes, "ordered_indices_returns": order, "got_shape": list(ga.shape), "want_shape": list(want.shape)}
+    finally:
+        einsum.ordered_indices = real_oi
+        einsum.contract_path = real_cp
+    ctx.check("any_order/ordered_indices_contract", bad_contract is None and n_contract > 0,
+              clause="ordered_indices(expr, shapes) maps every output index to its position in the output and every other index to a number "
+                     "(%d expressions)" % n_contract, detail=str(bad_contract), witness=bad_contract, concrete_input=True)
+    ctx.check("any_order/equals_reference", bad is None and n_ok > 0,
+              clause="with ordered_indices replaced by ANY map satisfying its contract (summed indices -> any numbers, ties allowed): einsum(expr, *t) == sum_{summed} prod operands as polynomials in "
+                     "all tensor entries (%d (expression, order) pairs checked, %d declined by raising)" % (n_ok, n_declined),
+              detail=str(bad), witness=bad, concrete_input=True)
+    ctx.check("any_order/not_all_declined", n_ok >= 200, clause="at least 200 (expression, order) pairs accepted (non-vacuity)", detail="accepted %d" % n_ok)
+
+
+class _Probe(Exception):
+    pass
+
+
+def _random_path(n, rng):
+    """a valid contraction path in opt_einsum's convention: tuples of positions in the current operand list; contracted operands are
+    removed and the result is appended; ends with one operand (a single-operand list still gets one (0,) step)"""
+    path = []
+    cur = n
+    if cur == 1:
+        return [(0,)]
+    while cur > 1:
+        k = rng.randint(2, min(3, cur))
+        path.append(tuple(sorted(rng.sample(range(cur), k))))
+        cur = cur - k + 1
+    return path
